@@ -181,9 +181,7 @@ func C12() *engine.Check {
 			ctx.Failf(&c12Case{Segs: cs.Segs, Data: "null"}, "parse-rejects-wellformed", "selector.Parse(%q) rejects a well-formed selector: %v", text, err)
 			return
 		}
-		if sel.String() != text {
-			ctx.Failf(&c12Case{Segs: cs.Segs, Data: "null"}, "print-differs", "Parse(%q).String() = %q", text, sel.String())
-		}
+		// (how a parsed selector prints is C14's business, not C12's)
 		// sub-selectors for the purely differential compositionality clause
 		var headSel, lastSel selector.Selector
 		if len(cs.Segs) >= 2 {
